@@ -198,10 +198,10 @@ func (c *Ctx) checkClientOffersProvenance() {
 		}
 	}
 	if sendOffer == nil {
-		c.undecided(rule, "ClientOffers sends the offer on the matched snowflake's offerChannel", p.Pos(co.Pos()), "no send on Snowflake.offerChannel found")
+		c.missingOrMoved(rule, "ClientOffers sends the offer on the matched snowflake's offerChannel", co, func(in ssa.Instruction) bool { return opOn(p, in, "Snowflake.offerChannel", chSend) }, "a send on Snowflake.offerChannel", "the matched proxy never receives the client's offer")
 	}
 	if recvAnswer == nil {
-		c.undecided(rule, "ClientOffers receives the answer from the matched snowflake's answerChannel", p.Pos(co.Pos()), "no receive on Snowflake.answerChannel found")
+		c.missingOrMoved(rule, "ClientOffers receives the answer from the matched snowflake's answerChannel", co, func(in ssa.Instruction) bool { return opOn(p, in, "Snowflake.answerChannel", chRecv) }, "a receive on Snowflake.answerChannel", "the client never gets the proxy's answer")
 	}
 	// deregistration key
 	nDel := 0
@@ -212,7 +212,10 @@ func (c *Ctx) checkClientOffersProvenance() {
 		c.check(ok && f.Name() == "id" && isX(base), rule, "ClientOffers deregisters the matched snowflake's own id", p.instrPos(ci), "delete key is X.id", "the id removed from idToSnowflake is not the matched snowflake's id")
 	}
 	if nDel == 0 {
-		c.undecided(rule, "ClientOffers deregisters the matched snowflake's own id", p.Pos(co.Pos()), "no delete found")
+		c.missingOrMoved(rule, "ClientOffers deregisters the matched snowflake's own id", co, func(in ssa.Instruction) bool {
+			ci, ok := in.(ssa.CallInstruction)
+			return ok && calleeName(ci) == "builtin.delete"
+		}, "a delete from idToSnowflake", "the matched snowflake's id stays registered")
 	}
 	// the answer returned is the value received
 	if recvAnswer != nil && recvAnswer.Val != nil {
@@ -437,7 +440,7 @@ func (c *Ctx) checkProxyAnswersProvenance() {
 		c.check(isResultOf(op.Val, 0, "common/messages.DecodeAnswerRequest"), rule, "ProxyAnswers sends the decoded answer", p.instrPos(op.Instr), "", "the value sent to the client is not the decoded answer of this request")
 	}
 	if n == 0 {
-		c.undecided(rule, "ProxyAnswers", p.Pos(pa.Pos()), "no send on Snowflake.answerChannel")
+		c.missingOrMoved(rule, "ProxyAnswers hands the answer to the waiting client", pa, func(in ssa.Instruction) bool { return opOn(p, in, "Snowflake.answerChannel", chSend) }, "a send on Snowflake.answerChannel", "the proxy's answer never reaches the client")
 	}
 }
 
@@ -731,7 +734,11 @@ func (c *Ctx) checkBridgeLookup() {
 	// every line of the bridge list is decoded into a record of its own
 	{
 		ruleF := "O-6c one record per bridge-list line"
-		sites, stale := staleDecodeDests(p.FnsIn("broker"))
+		scopeD := p.FnsIn("broker")
+		if c.Thorough {
+			scopeD = p.FnsIn() // thorough: every JSON/gob decode inside a loop, anywhere in the repository
+		}
+		sites, stale := staleDecodeDests(scopeD)
 		for _, ci := range stale {
 			c.viol(ruleF, p.FnName(ci.Parent())+" decodes each line into a fresh record", p.instrPos(ci), "a JSON record is decoded inside a loop into a variable that lives across iterations: fields absent from a line keep the values of the previous line, so a bridge is registered with another bridge's address")
 		}
